@@ -43,7 +43,22 @@ def base_docs():
         c01.compose((ki("u8+ctx(own raw)"), ki("f32+poly"), ki("str-lookup(3 entries)")), 3),
         c05.make_doc(n=3, parents=(0, 1), crits=(5, 4), abstract_bits=1, nest=1, children_first=False, other_names=False),
         c05.make_doc(n=3, parents=(0, 0), crits=(3, 6), abstract_bits=3, nest=2, children_first=True, other_names=True),
+        _same_names_other_content(c05.make_doc(n=3, parents=(0, 0), crits=(3, 6), abstract_bits=3, nest=2, children_first=True, other_names=True)),
     ]
+
+
+def _same_names_other_content(doc):
+    """The same container names and document shape as the previous base document (children listed before their base container, the base
+    nesting NEST), but NEST and C1 hold other entries: anything remembered by *name* across loads gives this document the wrong content."""
+    import dataclasses
+    conts = []
+    for c in doc.containers:
+        if c.name == "NEST":
+            c = dataclasses.replace(c, entries=(("p", "TAILM"), ("p", "NM")))
+        elif c.name == "C1":
+            c = dataclasses.replace(c, entries=tuple(c.entries) + (("p", "LM"),))
+        conts.append(c)
+    return dataclasses.replace(doc, containers=tuple(conts))
 
 
 def load_bytes(xml: bytes, prefix, root="CCSDSPacket"):
@@ -124,7 +139,7 @@ def op_menu():
     """-> list of (label, xml, prefix, root, doc index or None, should_succeed)"""
     docs_ = base_docs()
     ops = []
-    picks = [(0, "xtce"), (0, "default"), (1, "q"), (1, "none"), (2, "default"), (2, "XTCE"), (3, "none+xsi"), (3, "q"), (4, "none"), (5, "xtce")]
+    picks = [(0, "xtce"), (0, "default"), (1, "q"), (1, "none"), (2, "default"), (2, "XTCE"), (3, "none+xsi"), (3, "q"), (4, "none"), (5, "xtce"), (6, "xtce")]
     for di, style in picks:
         ops.append((f"ok:{di}:{style}", render_xml(docs_[di], style), ns_prefix_arg(style), docs_[di].root, di, True))
     ops.append(("wrongprefix:0:xtce-as-q", render_xml(docs_[0], "xtce"), "q", docs_[0].root, None, False))
@@ -284,7 +299,7 @@ def run(ctx):
         "bound": (f"spellings: {len(docs_)} base documents x 6 namespace renderings (prefix xtce, prefix q, an upper-case prefix XTCE, default namespace, none, none + xmlns:xsi) x a comment at every inter-element position "
                   f"({'every position for prefix xtce/default/none, every third for q and none+xsi' if ctx.quick else 'every position'}), all at once, "
                   f"x whitespace variants; histories: every sequence of <= {3 if ctx.quick else 4} operations over a {nops}-operation menu "
-                  "(10 successful loads in different namespace conventions, 3 wrong-prefix loads, 4 loads that fail late inside the container/parameter set, 2 malformed inputs) followed by every target load (histories of length 4: every third target); "
+                  "(11 successful loads in different namespace conventions, two of them of documents with identical names and shape but different content, 3 wrong-prefix loads, 4 loads that fail late inside the container/parameter set, 2 malformed inputs) followed by every target load (histories of length 4: every third target); "
                   "breadth-first closure over the real class-level namespace state to a fixed point"),
         "rule": ("one evaluation = one load compared with the fresh-interpreter canonical form; states = reachable class-level (nsmap, prefix) states "
                  "(complete); transitions = loads performed; traces = histories replayed"),
